@@ -22,3 +22,5 @@ import AITB.Props.C03GapMin
 import AITB.Props.C03GapMinLb
 import AITB.Props.C03Prom2
 import AITB.Props.C03GapMinUb
+import AITB.Props.C03Trunc
+import AITB.Props.C03Trunc2
